@@ -18,6 +18,8 @@ const (
 	hkError
 	hkCancelClosed
 	hkEvalExit
+	hkJoinBefore
+	hkJoinAfter
 )
 
 // Exported names of the points, for the verification harness.
@@ -34,6 +36,8 @@ const (
 	HkError        = hkError
 	HkCancelClosed = hkCancelClosed
 	HkEvalExit     = hkEvalExit
+	HkJoinBefore   = hkJoinBefore
+	HkJoinAfter    = hkJoinAfter
 )
 
 // VerifHook, when non-nil, is called at every synchronisation point with an
